@@ -14,6 +14,10 @@ void h_format_line(void) {
     FMT_GHOST_RESET();
     g_fmt_on = true;
     g_w = nondet_size_t();
+    for (int i = 0; i < 8; ++i) g_L[i] = nondet_int();
+    g_dlen = nondet_size_t();
+    g_derr = nondet_bool();
+    g_line = nondet_ptr();
 #ifdef VERIF_FMT_STRICT
     g_strict = true;
 #endif
